@@ -330,7 +330,7 @@ def requests_on_the_replaced_ike_sa(ck, mons, seed, w):
 
 
 BAD_REKEY_ANSWERS = ('missing-dh-transform', 'missing-prf-transform', 'foreign-encryption', 'two-integrity-transforms-one-foreign', 'ke-of-another-group', 'no-ke-payload', 'no-nonce',
-                     'esp-proposal', 'empty-spi', 'ke-too-short', 'no-sa-payload')
+                     'esp-proposal', 'empty-spi', 'ke-too-short', 'no-sa-payload', 'no-proposal-chosen-notification', 'invalid-syntax-notification')
 
 
 def unacceptable_ike_rekey_answer(ck, mons, seed, w):
@@ -383,6 +383,10 @@ def unacceptable_ike_rekey_answer(ck, mons, seed, w):
             pub = pub[:-5]
         pls = [{'type': codec.SA, 'critical': False, 'proposals': [{'num': offer['num'], 'proto': proto, 'spi': spi, 'transforms': trs}]},
                {'type': codec.NONCE, 'critical': False, 'data': gen_bytes(rng, 32)}, {'type': codec.KE, 'critical': False, 'group': g, 'data': pub}]
+        if kind == 'no-proposal-chosen-notification':
+            return [{'type': codec.NOTIFY, 'critical': False, 'proto': 0, 'spi': b'', 'ntype': 14, 'data': b''}]
+        if kind == 'invalid-syntax-notification':
+            return [{'type': codec.NOTIFY, 'critical': False, 'proto': 0, 'spi': b'', 'ntype': 7, 'data': b''}]
         if kind == 'no-ke-payload':
             pls = pls[:2]
         elif kind == 'no-nonce':
@@ -413,6 +417,7 @@ def unacceptable_ike_rekey_answer(ck, mons, seed, w):
     a.step('tick')
     pr.serve(sim, a)
     a.step('tick')
+    return sim, a
 
 
 DELETE_LISTS = ((0, 2), (1, 3), (0, 1, 2), (3, 0), (2, 1, 0, 3), (1,), (0, 0, 2), (2, 3))
